@@ -113,7 +113,9 @@ fn crafted_programs() -> Vec<Prog> {
             "pub fn main(x: [u8; C{}], y: u8) -> u8 {{\n let mut s = y;\n for e in x {{ s = s + e; }}\n let z = [0u8; M];\n s + z[0]\n}}\n",
             n - 1
         );
-        v.push(Prog { origin: format!("crafted-const-chain-{n}"), src, consts: vec![("PARTY_0".into(), "N".into(), 1 + n as u64 % 3, "usize")] });
+        v.push(Prog { origin: format!("crafted-const-chain-{n}"), src: src.clone(), consts: vec![("PARTY_0".into(), "N".into(), 1 + n as u64 % 3, "usize")] });
+        // the same chain with all definitions on one line (their source positions differ by column only)
+        v.push(Prog { origin: format!("crafted-const-chain-one-line-{n}"), src: src.replace(";\nconst", "; const"), consts: vec![("PARTY_0".into(), "N".into(), 1 + n as u64 % 3, "usize")] });
         // alias chain: each constant is just another name for the previous one
         let mut src = String::new();
         src += "const A0: usize = PARTY_0::N;\n";
